@@ -673,6 +673,77 @@ fn c10_typed(max_n: usize, st: &mut Stats) {
     }
 }
 
+/// chains of n nodes with one back edge from the last node to node k: ids of two and more varint
+/// bytes (n up to 600; k around every 7-bit and 8-bit boundary)
+fn c10_long_chains(st: &mut Stats) {
+    for n in [130usize, 300, 600] {
+        let targets: Vec<usize> = [0usize, 1, 126, 127, 128, 129, 254, 255, 256, 257, 300, 382, 383, 384, 385, 511, 512, 513, 599]
+            .into_iter()
+            .filter(|k| *k < n)
+            .collect();
+        for k in targets {
+            st.states += 1;
+            let key = format!("c10chain:{n}/{k}");
+            let nodes: Vec<Rc<Node>> = (0..n).map(|i| Node::new((i % 251) as u8)).collect();
+            for i in 0..n - 1 {
+                nodes[i].edges.borrow_mut().push(nodes[i + 1].clone());
+            }
+            nodes[n - 1].edges.borrow_mut().push(nodes[k].clone());
+            // reference stream
+            let mut refb = Vec::new();
+            for i in 0..n {
+                refb.push(0);
+                refb.push((i % 251) as u8);
+                refb.push(1);
+            }
+            refb.extend(varu(k as u32 + 1));
+            let enc = graph_encode(&Graph { root: nodes[0].clone() });
+            st.transitions += 1;
+            st.validated += 1;
+            let mut ok = enc == Out::Ok(refb.clone());
+            let mut problem = String::from("stream differs from the reference numbering");
+            if ok {
+                match graph_decode(&refb) {
+                    Out::Ok(d) => {
+                        st.transitions += 1;
+                        // walk the chain; the last node's edge must be the k-th node itself
+                        let mut cur = d.root.clone();
+                        let mut seen: Vec<Rc<Node>> = vec![cur.clone()];
+                        for _ in 0..n - 1 {
+                            let next = cur.edges.borrow()[0].clone();
+                            seen.push(next.clone());
+                            cur = next;
+                        }
+                        let back = cur.edges.borrow()[0].clone();
+                        if !Rc::ptr_eq(&back, &seen[k]) || d.all.len() != n {
+                            ok = false;
+                            problem = format!("back edge of the last node does not point to node {k} (objects: {})", d.all.len());
+                        }
+                        d.dispose();
+                    }
+                    o => {
+                        ok = false;
+                        problem = match o {
+                            Out::Err(e) => format!("decode failed: {e:?}"),
+                            Out::Panic(p) => format!("decode panicked: {p}"),
+                            _ => String::new(),
+                        };
+                    }
+                }
+            }
+            for nd in &nodes {
+                nd.edges.borrow_mut().clear();
+            }
+            if ok {
+                st.bump("long-chain");
+                st.nontrivial += 1;
+            } else {
+                st.violate(format!("C10 long-chain nodes={n} back-edge-to={k}"), key, json!({"problem": problem}));
+            }
+        }
+    }
+}
+
 pub fn run_c10(tier: &str, only: Option<String>) -> i32 {
     let mut run = Run::new("C10", tier, "model_checking", only);
     let thorough = run.thorough();
@@ -711,6 +782,7 @@ pub fn run_c10(tier: &str, only: Option<String>) -> i32 {
     if run.only.as_ref().map(|k| k.starts_with("c10typed") || k.starts_with("c10lookup")).unwrap_or(true) {
         let mut st = Stats::default();
         c10_typed(if thorough { 4 } else { 3 }, &mut st);
+        c10_long_chains(&mut st);
         run.stats.merge(st);
     }
     run.rule = format!("all rooted digraphs with <= {max_n} nodes and ordered out-edge lists of length <= 2 (self-loops, diamonds, back edges, unreachable nodes), encoded by a codec that offers the node's heap address to store_ref_or_object and resolves try_read_ref through a Weak self pointer; oracle: stream == pre-order first-encounter reference stream, decoded graph isomorphic with pointer-equal sharing and distinct nodes distinct, one object per reachable node, every reference id beyond the objects introduced so far (and u32::MAX) is Err; plus all graphs with <= 3 / 4 nodes whose nodes embed a second tracked object (a core at offset 0, i.e. at the same address) with <= 1 node edge and <= 1 core edge each: distinct objects of different types at one address keep distinct ids, on the writer and on the reader side; non-trivial = graph with sharing or a cycle");
